@@ -217,6 +217,7 @@ def o4_gate(chk, prog):
         f = {k: flag_val(ip_, v) for k, v in server_flags(ip_, prog, srv).items()}
         # (session state that checkin_cleanup would have reset -- unless the pool is configured not to clean its connections)
         f['session_state'] = flag_val(ip_, cc) and (f['needs_cleanup_set'] or f['needs_cleanup_prepare'])
+        # (statements listed as prepared whose Parse the server never answered: an abandoned batch -- the harness's connection has none pending)
         dirty = f['in_transaction'] or f['in_copy_mode'] or f['data_available'] or f['bad'] or f['session_state']
         if not broken and dirty:
             which = [k for k in ('in_transaction', 'in_copy_mode', 'data_available', 'bad', 'session_state') if f[k]]
